@@ -179,6 +179,17 @@ template <> struct task<void> {
   void await_suspend(std::coroutine_handle<>);
   void await_resume();
 };
+// a coroutine type WITHOUT a nested promise_type: its promise is found only through a std::coroutine_traits specialisation
+struct xtask { bool await_ready(); void await_suspend(std::coroutine_handle<>); int await_resume(); };
+struct xtask_promise {
+  std::suspend_never initial_suspend() noexcept { return {}; }
+  std::suspend_always final_suspend() noexcept { return {}; }
+  void return_value(int);
+  std::suspend_always yield_value(int);
+  void unhandled_exception();
+  xtask get_return_object();
+};
+template <typename... A> struct std::coroutine_traits<xtask, A...> { using promise_type = xtask_promise; };
 #endif
 extern int gi;
 extern trompeloeil::sequence gseq;
@@ -468,6 +479,10 @@ EXTRA = [
     ('empty RETURN() on a void function', 'MAKE_MOCK1(f, void(int));', 'REQUIRE_CALL(m, f(trompeloeil::_)).RETURN();', 'RETURN does not make sense for void-function', 'c++14'),
     ('MAKE_MOCKn arity smaller than the signature', 'MAKE_MOCK1(f, void(int, int));', '', 'Function signature does not have 1 parameters', 'c++14'),
     ('MAKE_CONST_MOCK0 on a one-parameter signature', 'MAKE_CONST_MOCK0(f, int(int));', '', 'Function signature does not have 0 parameters', 'c++14'),
+    # a coroutine type whose promise comes from std::coroutine_traits only is a coroutine like any other (C++20)
+    ('RETURN on a traits-only coroutine type', 'MAKE_MOCK1(f, xtask(int));', 'REQUIRE_CALL(m, f(trompeloeil::_)).RETURN(xtask{});', 'Do not use RETURN from a coroutine, use CO_RETURN', 'c++20'),
+    ('THROW on a traits-only coroutine type', 'MAKE_MOCK1(f, xtask(int));', 'REQUIRE_CALL(m, f(trompeloeil::_)).THROW(1);', 'Do not use THROW from a coroutine, use CO_THROW', 'c++20'),
+    ('no CO_RETURN on a traits-only coroutine type', 'MAKE_MOCK1(f, xtask(int));', 'REQUIRE_CALL(m, f(trompeloeil::_));', 'CO_RETURN missing for coroutine', 'c++20'),
     # the variadic (_V) macro family is a separate set of macro definitions: same diagnostics
     ('FORBID_CALL_V with RETURN', 'MAKE_MOCK1(f, int(int));', 'FORBID_CALL_V(m, f(trompeloeil::_), .RETURN(1));', 'RETURN for forbidden call does not make sense', 'c++14'),
     ('FORBID_CALL_V with SIDE_EFFECT', 'MAKE_MOCK1(f, int(int));', 'FORBID_CALL_V(m, f(trompeloeil::_), .SIDE_EFFECT(++gi));', 'SIDE_EFFECT for forbidden call does not make sense', 'c++14'),
@@ -501,6 +516,8 @@ LEGAL = [
      'struct MJ : trompeloeil::mock_interface<IF> {\n  IMPLEMENT_MOCK1(f);\n  IMPLEMENT_CONST_MOCK1(g);\n  IMPLEMENT_MOCK0(h, noexcept);\n  IMPLEMENT_CONST_MOCK2(k, noexcept);\n',
      'MI mi; const MI& cmi = mi; REQUIRE_CALL(mi, f(1)).RETURN(0); REQUIRE_CALL(cmi, g(trompeloeil::_)); ALLOW_CALL(mi, h()).RETURN(1); FORBID_CALL(cmi, k(1, trompeloeil::_)); IF& i = mi; (void)i.f(1); i.g(2);'
      ' MJ mj; const MJ& cmj = mj; REQUIRE_CALL(mj, f(trompeloeil::gt(0))).RETURN(_1); ALLOW_CALL(cmj, g(trompeloeil::_)).WITH(_1 > 0); REQUIRE_CALL(mj, h()).TIMES(AT_MOST(2)).RETURN(3); REQUIRE_CALL(cmj, k(trompeloeil::_, trompeloeil::_)).RETURN(_1 + _2); IF& j = mj; (void)j.f(1);'),
+    ('coroutine clauses on a type whose promise comes from std::coroutine_traits only', 'MAKE_MOCK1(f, xtask(int));',
+     'REQUIRE_CALL(m, f(trompeloeil::_)).CO_RETURN(_1 + 1); REQUIRE_CALL(m, f(1)).CO_YIELD(1).CO_YIELD(2).CO_RETURN(3); ALLOW_CALL(m, f(2)).CO_THROW(1); REQUIRE_CALL(m, f(3)).TIMES(2).LR_CO_RETURN(gi);', None, 'c++20'),
     # the long-macro configuration: every prefixed macro must work on its own (the short names do not exist)
     ('LONG_MACROS: every prefixed expectation macro and clause', 'TROMPELOEIL_MAKE_MOCK1(f, int(int));\n  TROMPELOEIL_MAKE_CONST_MOCK1(c, void(int));',  # one MAKE_MOCK per source line
      'int loc = 0; TROMPELOEIL_REQUIRE_CALL(m, f(trompeloeil::_)).TROMPELOEIL_WITH(_1 > 0).TROMPELOEIL_LR_WITH(_1 > loc).TROMPELOEIL_IN_SEQUENCE(gseq).TROMPELOEIL_TIMES(TROMPELOEIL_AT_LEAST(1)).TROMPELOEIL_SIDE_EFFECT(++gi).TROMPELOEIL_LR_SIDE_EFFECT(++loc).TROMPELOEIL_RETURN(1);'
@@ -516,12 +533,16 @@ def extras(args):
     n = 0
     pre = PREAMBLE + 'extern trompeloeil::sequence gseq2;\n'
     jobs = []
+    minstd = {}
     for i, (desc, mock, body, want, std) in enumerate(EXTRA):
         src = pre + 'struct MX { %s };\nvoid probe(MX& m) { (void)m; %s }\n' % (mock, body)
+        minstd[len(jobs)] = std
         jobs.append((desc, src, want))
     for i, legal in enumerate(LEGAL):
         desc, mock, body = legal[:3]
-        define = ('#define %s\n' % legal[3]) if len(legal) > 3 else ''
+        define = ('#define %s\n' % legal[3]) if len(legal) > 3 and legal[3] else ''
+        if len(legal) > 4:
+            minstd[len(jobs)] = legal[4]
         src = define + pre + 'struct MX { %s };\nvoid probe(MX& m) { (void)m; %s }\n' % (mock, body)
         jobs.append((desc, src, None))
 
@@ -539,7 +560,7 @@ def extras(args):
             return dict(kind='misuse', what=desc, compiler=cxx, std=std, why='rejected without /%s/' % want, compiler_output=out[-3000:], source=src)
         return None
 
-    all_jobs = [(k, j, cxx, std) for k, j in enumerate(jobs) for cxx in ('g++', 'clang++') for std in ('c++14', 'c++17', 'c++20')]
+    all_jobs = [(k, j, cxx, std) for k, j in enumerate(jobs) for cxx in ('g++', 'clang++') for std in ('c++14', 'c++17', 'c++20') if std >= minstd.get(k, 'c++14')]
     with ThreadPoolExecutor(max_workers=NPROC) as ex:
         for r in ex.map(one, all_jobs):
             n += 1
